@@ -1,8 +1,240 @@
 import PyPhysim.Model.Proto
-open PyPhysim.Proto
+import PyPhysim.Model.C18
+import PyPhysim.Generated.PrimeTable
+import PyPhysim.Generated.C18RootTables
+open PyPhysim.Proto PyPhysim.Cazac PyPhysim.Generated
 
--- stub: replaced when the C18 model is written
-def handle : List String → String
+/-! Line-protocol driver of the C18 model.  Scalars: `CF` (pair of binary64)
+for the estimator paths, `CQ` (Gaussian rationals) for the least-squares path. -/
+
+-- ---------------------------------------------------------------- complex binary64
+structure CF where
+  re : Float
+  im : Float
+
+instance : Add CF := ⟨fun a b => ⟨a.re + b.re, a.im + b.im⟩⟩
+instance : Sub CF := ⟨fun a b => ⟨a.re - b.re, a.im - b.im⟩⟩
+instance : Neg CF := ⟨fun a => ⟨-a.re, -a.im⟩⟩
+instance : Mul CF := ⟨fun a b => ⟨a.re * b.re - a.im * b.im, a.re * b.im + a.im * b.re⟩⟩
+instance : Div CF := ⟨fun a b =>
+  let d := b.re * b.re + b.im * b.im
+  ⟨(a.re * b.re + a.im * b.im) / d, (a.im * b.re - a.re * b.im) / d⟩⟩
+instance : Zero CF := ⟨⟨0.0, 0.0⟩⟩
+instance : NatCast CF := ⟨fun n => ⟨Float.ofNat n, 0.0⟩⟩
+
+def twoPi : Float := 6.283185307179586476925286766559
+
+/-- `exp(2πi q)`; the phase is reduced exactly to `(-1/2, 1/2]` turns first -/
+def cisF (q : Rat) : CF :=
+  let fr := q - ((q.floor : Int) : Rat)
+  let fr := if fr > (1 : Rat) / 2 then fr - 1 else fr
+  let t := twoPi * (Float.ofInt fr.num / Float.ofNat fr.den)
+  ⟨Float.cos t, Float.sin t⟩
+
+instance : CisOps CF := ⟨cisF, fun a => ⟨a.re, -a.im⟩⟩
+
+def showC (z : CF) : String := showFloat z.re ++ ":" ++ showFloat z.im
+def showCL (l : List CF) : String := showList showC l
+def parseC? (s : String) : Option CF :=
+  match s.splitOn ":" with
+  | [a, b] => do let x ← parseFloat? a; let y ← parseFloat? b; pure ⟨x, y⟩
+  | _ => none
+def parseCL? (s : String) : Option (List CF) := (fields s ",").mapM parseC?
+def parseCRows? (s : String) : Option (List (List CF)) := (fields s "|").mapM parseCL?
+def parseCBlocks? (s : String) : Option (List (List (List CF))) := (fields s "#").mapM parseCRows?
+
+def norm2 (x : List CF) : CF :=
+  ⟨Float.sqrt (x.foldl (fun acc z => acc + (z.re * z.re + z.im * z.im)) 0.0), 0.0⟩
+
+-- ---------------------------------------------------------------- Gaussian rationals
+structure CQ where
+  re : Rat
+  im : Rat
+  deriving BEq, Inhabited
+
+instance : Add CQ := ⟨fun a b => ⟨a.re + b.re, a.im + b.im⟩⟩
+instance : Sub CQ := ⟨fun a b => ⟨a.re - b.re, a.im - b.im⟩⟩
+instance : Neg CQ := ⟨fun a => ⟨-a.re, -a.im⟩⟩
+instance : Mul CQ := ⟨fun a b => ⟨a.re * b.re - a.im * b.im, a.re * b.im + a.im * b.re⟩⟩
+instance : Div CQ := ⟨fun a b =>
+  let d := b.re * b.re + b.im * b.im
+  ⟨(a.re * b.re + a.im * b.im) / d, (a.im * b.re - a.re * b.im) / d⟩⟩
+instance : Zero CQ := ⟨⟨0, 0⟩⟩
+instance : NatCast CQ := ⟨fun n => ⟨(n : Rat), 0⟩⟩
+/-- only `conj` is used on the least-squares path -/
+instance : CisOps CQ := ⟨fun _ => ⟨1, 0⟩, fun a => ⟨a.re, -a.im⟩⟩
+
+def showQ (z : CQ) : String := showRat z.re ++ ":" ++ showRat z.im
+def parseQ? (s : String) : Option CQ :=
+  match s.splitOn ":" with
+  | [a, b] => do let x ← parseRat? a; let y ← parseRat? b; pure ⟨x, y⟩
+  | _ => none
+def parseQRows? (s : String) : Option (List (List CQ)) :=
+  (fields s "|").mapM (fun r => (fields r ",").mapM parseQ?)
+
+def isZeroQ (z : CQ) : Bool := z.re == 0 && z.im == 0
+
+/-- Gauss–Jordan inverse over the Gaussian rationals (stands for `np.linalg.inv`);
+    `none` when singular. Rows are augmented with the identity. -/
+def gaussJordan (n : Nat) (a : List (List CQ)) : Option (List (List CQ)) := Id.run do
+  let one : CQ := ⟨1, 0⟩
+  let mut m : Array (Array CQ) := (a.zipIdx.map (fun p =>
+    (p.1 ++ (List.range n).map (fun j => if j = p.2 then one else (0 : CQ))).toArray)).toArray
+  for col in [0:n] do
+    -- pivot search
+    let mut piv := n
+    for r in [col:n] do
+      if piv = n && !isZeroQ (m[r]!)[col]! then piv := r
+    if piv = n then return none
+    let tmp := m[col]!
+    m := m.set! col m[piv]!
+    m := m.set! piv tmp
+    let p := (m[col]!)[col]!
+    m := m.set! col ((m[col]!).map (fun v => v / p))
+    for r in [0:n] do
+      if r ≠ col then
+        let f := (m[r]!)[col]!
+        if !isZeroQ f then
+          let rowc := m[col]!
+          m := m.set! r ((m[r]!).zipWith (fun v w => v - f * w) rowc)
+  return some (m.toList.map (fun row => (row.toList.drop n)))
+
+def toMat (m n : Nat) (rows : List (List CQ)) : Mat CQ m n :=
+  fun i j => (rows.getD i.val []).getD j.val 0
+def ofMat {m n : Nat} (A : Mat CQ m n) : List (List CQ) :=
+  (List.finRange m).map (fun i => (List.finRange n).map (fun j => A i j))
+
+-- ---------------------------------------------------------------- helpers
+def showErr (e : PyErr) : String := "error:" ++ toString e
+
+def optNat? (s : String) : Option (Option Nat) :=
+  if s == "none" then some none else s.toNat?.map some
+
+def getNat (toks : List String) (k : String) : Option Nat := (kv toks k).bind String.toNat?
+
+def buildRoot (toks : List String) : Option (Except PyErr RootSeq) := do
+  let u ← getNat toks "u"
+  let size ← (kv toks "size").bind optNat?
+  let nzc ← (kv toks "nzc").bind optNat?
+  pure (rootSequence smallPrimeList rootTable1 rootTable2 u size nzc)
+
+def intToCF (i : Int) : CF := ⟨Float.ofInt i, 0.0⟩
+
+/-- user sequence object from the tokens `u size nzc ncs D cover norm` -/
+def buildUe (toks : List String) : Option (Except PyErr (UeSeq CF)) := do
+  let root ← buildRoot toks
+  let ncs ← getNat toks "ncs"
+  let d ← getNat toks "D"
+  let norm ← getNat toks "norm"
+  let coverS ← kv toks "cover"
+  let cover : Option (List CF) ← if coverS == "none" then some none
+    else (parseIntList? coverS).map (fun l => some (l.map intToCF))
+  pure (do
+    let rs ← root
+    let ph ← shiftedPhases rs.seqArray ncs d
+    let x : List CF := seqValues ph
+    let row0 : List CF := match cover with
+      | none => x
+      | some [] => []
+      | some (c :: _) => x.map (fun v => v * c)
+    ueSequence x cover (norm == 1) (norm2 row0))
+
+def showRowsE (r : Except PyErr (List (List CF))) : String :=
+  match r with
+  | .ok rows => showList showCL rows "|"
+  | .error e => showErr e
+
+def handle (toks : List String) : String :=
+  match toks with
+  | ["lookup", s] => match s.toNat? with
+      | some s => (match primeLookup smallPrimeList s with | .ok p => toString p | .error e => showErr e)
+      | none => "bad-op"
+  | ["ext", n, size] => match n.toNat?, size.toNat? with
+      | some n, some size => (match extendedZF (List.range n) size with
+          | .ok l => showList toString l | .error e => showErr e)
+      | _, _ => "bad-op"
+  | "root" :: rest => match buildRoot rest with
+      | some (.ok r) => "nzc=" ++ toString r.nzc ++ " size=" ++ toString r.size ++ " ext="
+          ++ (if r.ext.isSome then "1" else "0") ++ " ph=" ++ showList showRat r.seqArray
+      | some (.error e) => showErr e
+      | none => "bad-op"
+  | "shift" :: rest => match buildRoot rest, getNat rest "ncs", getNat rest "D" with
+      | some (.ok r), some ncs, some d => (match shiftedPhases r.seqArray ncs d with
+          | .ok ph => showList showRat ph | .error e => showErr e)
+      | some (.error e), _, _ => showErr e
+      | _, _, _ => "bad-op"
+  | "ue" :: rest => match buildUe rest with      -- the stored user sequence array
+      | some (.ok ue) => showList showCL ue.rows "|"
+      | some (.error e) => showErr e
+      | none => "bad-op"
+  | "est" :: rest =>
+      -- plain estimator; reference = user sequence object or raw array `ref=`
+      match getNat rest "m", getNat rest "K", getNat rest "dim", kv rest "Y" with
+      | some m, some k, some dim, some ys =>
+        let refE : Option (Except PyErr (List CF × Bool)) :=
+          match kv rest "ref" with
+          | some rs => (parseCL? rs).map (fun r => .ok (r, false))
+          | none => (buildUe rest).map (fun e => e.bind (fun ue =>
+              match ue.cover, ue.rows with
+              | none, [row] => .ok (row, ue.normalized)
+              | _, _ => .error .ValueError))
+        match refE with
+        | none => "bad-op"
+        | some (.error e) => showErr e
+        | some (.ok (r, nrm)) =>
+          if dim = 1 then
+            match parseCL? ys with
+            | some y => (match estimate1 r nrm m y k with | .ok h => showCL h | .error e => showErr e)
+            | none => "bad-op"
+          else
+            match parseCRows? ys with
+            | some y => showRowsE (estimateRows r nrm m y k)
+            | none => "bad-op"
+      | _, _, _, _ => "bad-op"
+  | "occ" :: rest =>
+      match getNat rest "K", getNat rest "dim", getNat rest "extra", kv rest "Y", buildUe rest with
+      | some k, some dim, some extra, some ys, some ueE =>
+        match ueE with
+        | .error e => showErr e
+        | .ok ue =>
+          let nc := match ue.cover with | some cc => cc.length | none => 0
+          if extra = 1 then
+            if dim = 2 then
+              match parseCRows? ys with
+              | some y => (match estimateOcc1 ue y k with | .ok h => showCL h | .error e => showErr e)
+              | none => "bad-op"
+            else
+              match parseCBlocks? ys with
+              | some y => showRowsE (estimateOccRows ue y k)
+              | none => "bad-op"
+          else
+            if dim = 1 then
+              match parseCL? ys with
+              | some y => (match (reshapeRows nc y).bind (fun yy => estimateOcc1 ue yy k) with
+                  | .ok h => showCL h | .error e => showErr e)
+              | none => "bad-op"
+            else
+              match parseCRows? ys with
+              | some y => showRowsE ((y.mapM (reshapeRows nc)).bind (fun yy => estimateOccRows ue yy k))
+              | none => "bad-op"
+      | _, _, _, _, _ => "bad-op"
+  | "ls" :: rest =>
+      match getNat rest "nr", getNat rest "nt", getNat rest "np",
+            (kv rest "Y").bind parseQRows?, (kv rest "S").bind parseQRows? with
+      | some nr, some nt, some np, some y, some s =>
+        let S : Mat CQ nt np := toMat nt np s
+        let G := ofMat (matMul S (conjT S))
+        match gaussJordan nt G with
+        | none => "singular"
+        | some gi =>
+          let inv : Mat CQ nt nt → Mat CQ nt nt := fun _ => toMat nt nt gi
+          let H := lsEstimate inv (toMat nr np y) S
+          -- contract of the stand-in kernel, reported so that the harness can assert it
+          let chk := ofMat (matMul (matMul S (conjT S)) (toMat nt nt gi))
+          let idOk := chk.zipIdx.all (fun r => r.1.zipIdx.all (fun c =>
+            c.1 == (if c.2 = r.2 then (⟨1, 0⟩ : CQ) else ⟨0, 0⟩)))
+          (if idOk then "inv-ok " else "inv-bad ") ++ showList (fun row => showList showQ row) (ofMat H) "|"
+      | _, _, _, _, _ => "bad-op"
   | _ => "bad-op"
 
 def main : IO Unit := runDriver handle
